@@ -619,6 +619,10 @@ class C16(core.Check):
             run.run()
         except Violation as v:
             out.violate(v.clause, v.detail, run.opi)
+        except (HarnessError, MemoryError):
+            raise
+        except Exception as e:
+            out.violate(getattr(run, 'cur_clause', None) or 'C16.1', hist.unexpected(e, (case['ops'][run.opi:run.opi + 1] or [None])[0]), run.opi)
         out.steps = len(case['ops'])
         out.digest = digest_of(run.trace)
         rejected = any(k.startswith('index_rejected') or k.startswith('slice_') for k in out.probes) or bool(out.faults)
